@@ -56,6 +56,41 @@ enum Summary {
     BothUnknown,
     Neither,
 }
+/// the text of a summary given as markdown (only read when the summary class carries markdown)
+#[derive(Clone, Copy, Debug, PartialEq, Eq)]
+enum Md {
+    Normal,
+    Empty,        // ""
+    Space,        // " "
+    Newline,      // "\n"
+    Ws,           // " \t\r\n "
+    UnicodeBlank, // NBSP, EM SPACE, IDEOGRAPHIC SPACE, LINE SEPARATOR: White_Space, so str::trim removes them
+    ZeroWidth,    // U+200B U+FEFF: looks blank, is not White_Space
+    Long,         // ~300 KB of text
+    LongBlank,    // ~70 KB of blanks and newlines
+}
+fn md_text(m: Md) -> String {
+    match m {
+        Md::Normal => MD.to_string(),
+        Md::Empty => String::new(),
+        Md::Space => " ".into(),
+        Md::Newline => "\n".into(),
+        Md::Ws => " \t\r\n ".into(),
+        Md::UnicodeBlank => "\u{00a0}\u{2003}\u{3000}\u{2028}".into(),
+        Md::ZeroWidth => "\u{200b}\u{feff}".into(),
+        Md::Long => {
+            let mut s = String::from("# long summary\n");
+            for i in 0..6000 {
+                s.push_str(&format!("- item {i}: carried context \u{00e9}\u{20ac} \"quoted\" \\ backslash\n"));
+            }
+            s
+        }
+        Md::LongBlank => " \n\t".repeat(24_000),
+    }
+}
+fn md_blank(m: Md) -> bool {
+    md_text(m).trim().is_empty()
+}
 #[derive(Clone, Copy, Debug, PartialEq, Eq)]
 enum Kind {
     Branch,
@@ -72,7 +107,7 @@ enum Op {
     Restart,
     /// stale: roll the parent's sidecar back by k lines before the call (the cache is removed afterwards)
     /// bundle_fail: the artifact store is made unwritable for the duration of the call
-    Call { kind: Kind, th: usize, sel: Sel, stale: Option<usize>, bundle_fail: bool },
+    Call { kind: Kind, th: usize, sel: Sel, stale: Option<usize>, bundle_fail: bool, md: Md },
 }
 
 #[derive(Default)]
@@ -241,8 +276,8 @@ fn run_case(ops: &[Op], check_art: bool) -> Outcome {
                 apply_fault(&env, &tid(*th), *x);
             }
             Op::Restart => env.restart(),
-            Op::Call { kind, th, sel, stale, bundle_fail } => {
-                do_call(&mut env, &hs, &before, *kind, *th, *sel, *stale, *bundle_fail, check_art, &mut known_artifacts, &mut out, ops);
+            Op::Call { kind, th, sel, stale, bundle_fail, md } => {
+                do_call(&mut env, &hs, &before, *kind, *th, *sel, *stale, *bundle_fail, *md, check_art, &mut known_artifacts, &mut out, ops);
             }
         }
     }
@@ -251,7 +286,7 @@ fn run_case(ops: &[Op], check_art: bool) -> Outcome {
 }
 
 #[allow(clippy::too_many_arguments)]
-fn do_call(env: &mut Env, hs: &[Hdr], before: &[u8], kind: Kind, th: usize, sel: Sel, stale: Option<usize>, bundle_fail: bool, check_art: bool, known_artifacts: &mut Vec<String>, out: &mut Outcome, ops: &[Op]) {
+fn do_call(env: &mut Env, hs: &[Hdr], before: &[u8], kind: Kind, th: usize, sel: Sel, stale: Option<usize>, bundle_fail: bool, mdv: Md, check_art: bool, known_artifacts: &mut Vec<String>, out: &mut Outcome, ops: &[Op]) {
     let ids = created_ids(hs);
     let parent = pick_thread(&ids, th);
     let truth = cont_stream(hs, &parent);
@@ -307,11 +342,11 @@ fn do_call(env: &mut Env, hs: &[Hdr], before: &[u8], kind: Kind, th: usize, sel:
                 id
             };
             match s {
-                Summary::Markdown => (Some(MD.into()), None),
+                Summary::Markdown => (Some(md_text(mdv)), None),
                 Summary::ArtifactExisting => (None, Some(existing())),
                 Summary::ArtifactUnknown => (None, Some("artifact-that-does-not-exist".into())),
-                Summary::BothExisting => (Some(MD.into()), Some(existing())),
-                Summary::BothUnknown => (Some(MD.into()), Some("artifact-that-does-not-exist".into())),
+                Summary::BothExisting => (Some(md_text(mdv)), Some(existing())),
+                Summary::BothUnknown => (Some(md_text(mdv)), Some("artifact-that-does-not-exist".into())),
                 Summary::Neither => (None, None),
             }
         }
@@ -403,7 +438,8 @@ fn do_call(env: &mut Env, hs: &[Hdr], before: &[u8], kind: Kind, th: usize, sel:
             };
             let summary_ok = match kind {
                 Kind::Branch => true,
-                Kind::Handoff(s) => matches!(s, Summary::Markdown | Summary::ArtifactExisting | Summary::BothExisting) && !bundle_fail,
+                // (a blank text is "summary given as text"; code that REFUSES it keeps the property, so no demand there)
+                Kind::Handoff(s) => matches!(s, Summary::Markdown | Summary::ArtifactExisting | Summary::BothExisting) && !bundle_fail && (md.is_none() || mdv == Md::Normal || mdv == Md::Long),
             };
             if stale.is_none() && !truth.is_empty() && sel_ok && summary_ok {
                 viol!(format!("{kind:?} rejected a request that lies within the source thread (head {head}, from_seq {from_seq:?}, from_message_id {from_mid:?}): {e}"), "valid_request_rejected");
@@ -516,6 +552,20 @@ fn do_call(env: &mut Env, hs: &[Hdr], before: &[u8], kind: Kind, th: usize, sel:
                         }
                         (Some(_), None, None) => viol!("handoff without any summary succeeded".into(), "handoff_without_summary_accepted"),
                     }
+                    // "a handoff always carries a resolvable summary": whatever the summary text was (blank,
+                    // invisible, long), the recorded artifact id is read back from the workspace store
+                    if let Some(ra) = &rart {
+                        out.dist.push("handoff_summary_read_back".into());
+                        match std::fs::read(blobs_dir(env).join(ra)) {
+                            Err(_) if check_art || art.is_none() => viol!(format!("handoff recorded summary_artifact_id {ra}: no such blob in the workspace artifact store"), "handoff_summary_unresolvable"),
+                            Err(_) => {}
+                            Ok(b) if b.is_empty() => viol!(format!("handoff recorded summary_artifact_id {ra}: the blob is empty"), "handoff_summary_blob_empty"),
+                            Ok(_) => {}
+                        }
+                    }
+                    if rmd != md {
+                        viol!(format!("handoff frame records summary_markdown {:?}, the caller gave {:?}", rmd.as_ref().map(|s| s.chars().take(40).collect::<String>()), md.as_ref().map(|s| s.chars().take(40).collect::<String>())), "handoff_markdown_dropped");
+                    }
                 }
             }
         }
@@ -595,7 +645,7 @@ fn do_call(env: &mut Env, hs: &[Hdr], before: &[u8], kind: Kind, th: usize, sel:
     );
     let _ = ops;
     let desc = json!({
-        "call": format!("{kind:?} th={th} sel={sel:?} stale={stale:?} bundle_fail={bundle_fail}"),
+        "call": format!("{kind:?} th={th} sel={sel:?} stale={stale:?} bundle_fail={bundle_fail} md={mdv:?}"),
         "parent_frames": truth.iter().map(|h| format!("{}:{}", h.seq, ETYPES[h.code as usize])).collect::<Vec<_>>(),
         "from_message_id": from_mid, "from_seq": from_seq,
         "result": match &res { Ok((_, c, m)) => json!({"cut": c, "message_id": m}), Err(e) => json!({"err": e}) },
@@ -613,6 +663,12 @@ fn do_call(env: &mut Env, hs: &[Hdr], before: &[u8], kind: Kind, th: usize, sel:
     ));
     if let Kind::Handoff(s) = kind {
         out.dist.push(format!("summary={s:?}"));
+        if md.is_some() {
+            out.dist.push(format!("summary_text={mdv:?}"));
+            if md_blank(mdv) && res.is_ok() {
+                out.dist.push("blank_summary_text_accepted".into());
+            }
+        }
     }
     out.dist.push(format!("result={}", match &res { Ok(_) => "ok".to_string(), Err(e) => format!("err{}", err_code(e)) }));
     if stale.is_some() {
@@ -657,7 +713,13 @@ fn gen_call(r: &mut Rng, threads: usize, focus: usize) -> Op {
     let th = if r.chance(1, 25) { 1000 } else if r.chance(1, 2) { focus } else { r.below(threads as u64) as usize };
     let stale = if r.chance(1, 10) { Some(r.range(1, 3) as usize) } else { None };
     let bundle_fail = kind == Kind::Handoff(Summary::Markdown) && r.chance(1, 5);
-    Op::Call { kind, th, sel: gen_sel(r), stale, bundle_fail }
+    // the text of the summary: one handoff in three carries an unusual one (blank in several ways, invisible, long)
+    let md = if matches!(kind, Kind::Handoff(_)) && r.chance(1, 3) {
+        *r.pick(&[Md::Empty, Md::Empty, Md::Space, Md::Newline, Md::Ws, Md::UnicodeBlank, Md::ZeroWidth, Md::Long, Md::LongBlank])
+    } else {
+        Md::Normal
+    };
+    Op::Call { kind, th, sel: gen_sel(r), stale, bundle_fail, md }
 }
 fn gen_case(r: &mut Rng, long: bool) -> Vec<Op> {
     let n = if long { r.range(25, 45) } else { r.range(4, 18) };
@@ -692,7 +754,7 @@ fn gen_case(r: &mut Rng, long: bool) -> Vec<Op> {
 
 /// fixed cases that always run first (documented in corpus/C10/*.json)
 fn corpus() -> Vec<Vec<Op>> {
-    let call = |kind, sel| Op::Call { kind, th: 0, sel, stale: None, bundle_fail: false };
+    let call = |kind, sel| Op::Call { kind, th: 0, sel, stale: None, bundle_fail: false, md: Md::Normal };
     let mut every = vec![Op::Msg { th: 0 }, Op::RunSpawned { th: 0, m: MRef::Known(0) }, Op::Msg { th: 0 }, Op::RunEnded { th: 0, m: MRef::Known(0) }, Op::Msg { th: 0 }, Op::ToolFx { th: 0 }];
     for sel in [
         Sel::None, Sel::Seq(SeqSel::Zero), Sel::Seq(SeqSel::Mid(3)), Sel::Seq(SeqSel::Head), Sel::Seq(SeqSel::HeadPlus(0)), Sel::Seq(SeqSel::Max),
@@ -714,21 +776,48 @@ fn corpus() -> Vec<Vec<Op>> {
             call(Kind::Handoff(Summary::BothExisting), Sel::None),
             call(Kind::Handoff(Summary::BothUnknown), Sel::None),
             call(Kind::Handoff(Summary::Neither), Sel::None),
-            Op::Call { kind: Kind::Handoff(Summary::Markdown), th: 0, sel: Sel::None, stale: None, bundle_fail: true },
+            Op::Call { kind: Kind::Handoff(Summary::Markdown), th: 0, sel: Sel::None, stale: None, bundle_fail: true, md: Md::Normal },
         ],
+        // overlapping turns (POST /threads/{id}/messages returns 202 before the run ends): the run frames of a
+        // message stand AFTER later messages; from_message_id must still reach the end of its run
+        {
+            let k = |i| MRef::Known(i);
+            let mut v = vec![Op::Msg { th: 0 }, Op::RunSpawned { th: 0, m: k(0) }, Op::Msg { th: 0 }, Op::RunSpawned { th: 0, m: k(1) }, Op::RunEnded { th: 0, m: k(0) }, Op::RunEnded { th: 0, m: k(1) }, Op::Msg { th: 0 }, Op::RunSpawned { th: 0, m: k(0) }];
+            for sel in [Sel::Msg(MsgSel::First), Sel::Msg(MsgSel::Pick(1)), Sel::Msg(MsgSel::Last)] {
+                v.push(call(Kind::Branch, sel));
+                v.push(call(Kind::Handoff(Summary::Markdown), sel));
+                v.push(call(Kind::Handoff(Summary::ArtifactExisting), sel));
+            }
+            v
+        },
+        // the TEXT of the summary: empty, blank in several ways, invisible, long - alone, next to an existing
+        // artifact id, next to an unknown one; every accepted handoff must name a bundle that reads back
+        {
+            let mut v = vec![Op::Msg { th: 0 }, Op::RunSpawned { th: 0, m: MRef::Known(0) }, Op::RunEnded { th: 0, m: MRef::Known(0) }, Op::Msg { th: 0 }];
+            for md in [Md::Empty, Md::Space, Md::Newline, Md::Ws, Md::UnicodeBlank, Md::ZeroWidth, Md::Long, Md::LongBlank] {
+                v.push(Op::Call { kind: Kind::Handoff(Summary::Markdown), th: 0, sel: Sel::None, stale: None, bundle_fail: false, md });
+            }
+            for md in [Md::Empty, Md::Ws, Md::UnicodeBlank] {
+                v.push(Op::Call { kind: Kind::Handoff(Summary::BothExisting), th: 0, sel: Sel::Msg(MsgSel::First), stale: None, bundle_fail: false, md });
+                v.push(Op::Call { kind: Kind::Handoff(Summary::BothUnknown), th: 0, sel: Sel::Seq(SeqSel::Mid(2)), stale: None, bundle_fail: false, md });
+                v.push(Op::Call { kind: Kind::Handoff(Summary::Markdown), th: 0, sel: Sel::Seq(SeqSel::Zero), stale: None, bundle_fail: false, md });
+            }
+            v.push(Op::Call { kind: Kind::Handoff(Summary::Markdown), th: 0, sel: Sel::None, stale: None, bundle_fail: true, md: Md::Empty });
+            v
+        },
         // parent with only its creation frame; unknown parent; branch of a branch; handoff of a branch
         vec![
             call(Kind::Branch, Sel::None),
-            Op::Call { kind: Kind::Branch, th: 1000, sel: Sel::None, stale: None, bundle_fail: false },
-            Op::Call { kind: Kind::Branch, th: 1, sel: Sel::None, stale: None, bundle_fail: false },
+            Op::Call { kind: Kind::Branch, th: 1000, sel: Sel::None, stale: None, bundle_fail: false, md: Md::Normal },
+            Op::Call { kind: Kind::Branch, th: 1, sel: Sel::None, stale: None, bundle_fail: false, md: Md::Normal },
             Op::Msg { th: 1 },
-            Op::Call { kind: Kind::Handoff(Summary::Markdown), th: 1, sel: Sel::Msg(MsgSel::Last), stale: None, bundle_fail: false },
-            Op::Call { kind: Kind::Branch, th: 2, sel: Sel::Seq(SeqSel::Head), stale: None, bundle_fail: false },
+            Op::Call { kind: Kind::Handoff(Summary::Markdown), th: 1, sel: Sel::Msg(MsgSel::Last), stale: None, bundle_fail: false, md: Md::Normal },
+            Op::Call { kind: Kind::Branch, th: 2, sel: Sel::Seq(SeqSel::Head), stale: None, bundle_fail: false, md: Md::Normal },
         ],
         // run frames naming a message that does not exist / the empty string, then selecting exactly that id
         vec![Op::Msg { th: 0 }, Op::RunSpawned { th: 0, m: MRef::Ghost(0) }, Op::RunEnded { th: 0, m: MRef::Empty }, Op::Msg { th: 0 }, Op::RunEnded { th: 0, m: MRef::Known(0) }, call(Kind::Branch, Sel::Msg(MsgSel::Ghost(0))), call(Kind::Branch, Sel::Msg(MsgSel::Empty)), call(Kind::Branch, Sel::Msg(MsgSel::First))],
         // faults + restart on the parent, stale sidecar view
-        vec![Op::Msg { th: 0 }, Op::Msg { th: 0 }, Op::Fault { th: 0, x: Fault::TearTail }, call(Kind::Branch, Sel::None), Op::Fault { th: 0, x: Fault::Delete }, Op::Restart, call(Kind::Handoff(Summary::Markdown), Sel::Seq(SeqSel::Head)), Op::Call { kind: Kind::Branch, th: 0, sel: Sel::None, stale: Some(1), bundle_fail: false }, Op::Msg { th: 0 }, call(Kind::Branch, Sel::None)],
+        vec![Op::Msg { th: 0 }, Op::Msg { th: 0 }, Op::Fault { th: 0, x: Fault::TearTail }, call(Kind::Branch, Sel::None), Op::Fault { th: 0, x: Fault::Delete }, Op::Restart, call(Kind::Handoff(Summary::Markdown), Sel::Seq(SeqSel::Head)), Op::Call { kind: Kind::Branch, th: 0, sel: Sel::None, stale: Some(1), bundle_fail: false, md: Md::Normal }, Op::Msg { th: 0 }, call(Kind::Branch, Sel::None)],
     ]
 }
 
